@@ -253,7 +253,11 @@ func (g *genState) ops(cur *model.Coll, max int, mustUnique bool) []model.Op {
 		case x < 30:
 			ops = append(ops, model.Op{Kind: 'D', Key: k})
 		case x < 50 && g.gp.Merge:
-			ops = append(ops, model.Op{Kind: 'M', Key: k, Val: g.val()})
+			v := g.val()
+			if g.r.Chance(1, 8) {
+				v = MergeClear
+			}
+			ops = append(ops, model.Op{Kind: 'M', Key: k, Val: v})
 		default:
 			ops = append(ops, model.Op{Kind: 'S', Key: k, Val: g.val()})
 		}
